@@ -27,7 +27,12 @@ func Abs(ctx *expr.Context, input system.Collection, args ...expr.Expression) (s
 		return nil, fmt.Errorf("%w: received %v arguments, expected 0", ErrWrongArity, len(args))
 	}
 
-	switch value := input[0].(type) {
+	// A FHIR integer, decimal or Quantity element is taken as its System value.
+	item := input[0]
+	if converted, err := system.From(item); err == nil {
+		item = converted
+	}
+	switch value := item.(type) {
 	case system.Integer:
 		if !input.IsSingleton() {
 			return nil, fmt.Errorf("collection is not singleton")
